@@ -67,8 +67,11 @@ def setup(chunk=None):
   msg_mod.Long = stubs.sym_int
   tmux_mod.Deadline = ZeroDeadline
   q = tqm.TimerQueue(time_source=vtime.now, resolution=1)
-  class TS(object): pass
-  ts = TS(); ts.now = vtime.now()
+  class TS(object):
+    # LowResolutionTime: the real one follows the clock at 1 Hz; here it follows it exactly
+    now = property(lambda self: vtime.now())
+    def Get(self): return vtime.now()
+  ts = TS()
   ap_mod.LOW_RESOLUTION_TIMER_QUEUE = q; ap_mod.LOW_RESOLUTION_TIME_SOURCE = ts
   disp_mod.AsyncResult = CountingAR
   async_mod.AsyncResult = CountingAR      # results created by ContinueWith/Unwrap (calls chained behind Open)
